@@ -87,7 +87,7 @@ class Check(PropertyCheck):
         fails = []
         tr = obs["trace"]; kinds = case["flows"]
         enq = []; wound = False; nstop = 0
-        replays = []      # [flow, option value when it was started, request arrived, finished]
+        replays = []      # by ordinal (order of `take`): [flow, option value when it was started, request arrived, finished]
         for r in tr:
             k = r[0]
             if k == "enq":
@@ -95,16 +95,21 @@ class Check(PropertyCheck):
                 # "Flows that cannot be replayed (live, intercepted, missing content, non-HTTP, WebSocket) are never queued"
                 if kinds[r[1]] in UNREPLAYABLE: fails.append(f"unreplayable flow {r[1]} ({kinds[r[1]]}) was queued")
             elif k == "stop":
-                nstop += 1
+                nstop += 1; st = r[1]
                 # "stopping replay restores every still-queued flow to its pre-replay state"
-                if r[3]: fails.append(f"stop#{nstop}: stop_replay left flows {r[3]} in the queue")
-                for i in r[2]: fails.append(f"stop#{nstop}: flow {i} not restored to its pre-replay state")
-                if any(x in r[1] for x in r[4]):
-                    # a queued flow is also in flight: reverting it tears the running replay's state apart
-                    # (finding F-C53b); nothing after this point is evaluated
-                    return fails
-                if enq[:len(r[1])] != r[1]: fails.append(f"stop#{nstop}: queue {r[1]} is not in submission order {enq}")
-                enq = enq[len(r[1]):]
+                if st["exc"]: fails.append(f"stop#{nstop}: stop_replay raised {st['exc']}")
+                if st["left"]: fails.append(f"stop#{nstop}: stop_replay left flows {st['left']} in the queue")
+                for i, kind in st["bad"]:
+                    why = ("it was reverted to the older backup it carried when it was queued" if kind == "stale-backup"
+                           else "its state is neither the pre-replay state nor an older backup")
+                    fails.append(f"stop#{nstop}: flow {i} not restored to its pre-replay state: {why}")
+                # what stop removed must be a prefix of the queue, in submission order (what it left is the rest)
+                removed = st["queued"][:len(st["queued"]) - len(st["left"])]
+                if st["queued"][len(removed):] != st["left"]:
+                    fails.append(f"stop#{nstop}: stop_replay removed {st['queued']} -> {st['left']}: not a prefix of the queue")
+                if enq[:len(st["queued"])] != st["queued"]:
+                    fails.append(f"stop#{nstop}: queue {st['queued']} is not in submission order {enq}")
+                enq = enq[len(removed):]
             elif k == "take":
                 # "queued flows are replayed … in queue order"
                 if not enq or enq[0] != r[1]: fails.append(f"flow {r[1]} taken out of queue order (head {enq[:1]})")
@@ -112,9 +117,9 @@ class Check(PropertyCheck):
                 # "With client_replay_concurrency 1, queued flows are replayed one at a time … a replayed request is sent only
                 #  after the previous replay has finished": a replay that was started while the option was 1 must have
                 #  finished before the next replay is started
-                for p in replays:
+                for n, p in enumerate(replays):
                     if p[1] == 1 and not p[3]:
-                        fails.append(f"flow {r[1]} taken while the replay of flow {p[0]}, started with "
+                        fails.append(f"flow {r[1]} taken while replay #{n} of flow {p[0]}, started with "
                                      f"client_replay_concurrency=1, had not finished")
                 replays.append([r[1], r[2], False, False])
             elif k == "arrive":
@@ -125,9 +130,9 @@ class Check(PropertyCheck):
                     # "a replayed request is sent only after the previous replay has finished": every replay started BEFORE
                     # this one while the option was 1 must have finished (replays started earlier with -1 run in the
                     # background and may send whenever their connection is up)
-                    for p in replays[:replays.index(cand[0])]:
+                    for n, p in enumerate(replays[:r[2]]):
                         if p[1] == 1 and not p[3]:
-                            fails.append(f"request of flow {r[1]} arrived while the earlier replay of flow {p[0]}, started "
+                            fails.append(f"request of flow {r[1]} arrived while the earlier replay #{n} of flow {p[0]}, started "
                                          f"with client_replay_concurrency=1, had not finished")
             elif k == "finish":
                 if 0 <= r[3] < len(replays): replays[r[3]][3] = True
@@ -135,8 +140,8 @@ class Check(PropertyCheck):
         # "every replayed flow ends with a response or an error" (liveness, explored: after the server has refused / closed
         #  everything pending)
         if wound:
-            for p in replays:
-                if not p[3]: fails.append(f"replay of flow {p[0]} ended with neither response nor error")
+            for n, p in enumerate(replays):
+                if not p[3]: fails.append(f"replay #{n} of flow {p[0]} ended with neither response nor error")
         # "queued flows are replayed one at a time in queue order … and every replayed flow ends with a response or an error":
         # once the server has answered / refused / closed everything pending (fairness hypothesis of the Lean theorem
         # every_replay_completes), nothing may be left queued or in flight
@@ -147,26 +152,72 @@ class Check(PropertyCheck):
                              f"flow {last[2]} is still in flight: the playback loop is stuck")
         return fails
 
+    # ---- known findings: input class AND failure kind, the predicted wrong outcome recomputed -----------------------
+    @staticmethod
+    def _stops(obs):
+        return [r[1] for r in obs["trace"] if r[0] == "stop"]
+
+    @staticmethod
+    def _hit_open(st):
+        """index of the first queued entry whose flow has a replay running over an OPEN server connection"""
+        for k, i in enumerate(st["queued"]):
+            if i in st["open"]: return k
+        return None
+
     def known(self, case, obs, failure):
-        if not failure.startswith("stop#"): return None
-        n = int(failure[5:].split(":")[0])
-        stops = [(j, r) for j, r in enumerate(obs["trace"]) if r[0] == "stop"]
-        j, rec = stops[n - 1]
-        # F-C53b: exactly the stops where a still-queued flow is also the flow in flight
-        if any(x in rec[1] for x in rec[4]): return "F-C53b"
-        # F-C53a: exactly the flows that already had a backup (user edit / earlier finished replay) when the start_replay
-        # call that queued them ran
-        if "not restored to its pre-replay state" in failure:
-            i = int(failure.split("flow ")[1].split()[0])
-            for r in obs["trace"][:j]:
-                if r[0] == "start" and i in r[2]: return "F-C53a"
+        import re
+        stops = self._stops(obs)
+        m = re.match(r"stop#(\d+): (.*)$", failure)
+        if m:
+            n = int(m.group(1)); rest = m.group(2)
+            if not (1 <= n <= len(stops)): return None
+            st = stops[n - 1]; k = self._hit_open(st)
+            rerr = (st["exc"] or "").startswith("RuntimeError: Cannot change server.")
+            # F-C53a: the stop ran to completion, the flow carried an older backup when it was queued, and what the
+            # flow looks like now IS that older backup
+            mm = re.match(r"flow (\d+) not restored to its pre-replay state: it was reverted to the older backup", rest)
+            if mm and st["exc"] is None and [int(mm.group(1)), "stale-backup"] in st["bad"]:
+                return "F-C53a"
+            # F-C53b: revert() of a queued flow whose replay runs over an open connection raised out of stop_replay; predicted:
+            # that very exception, the entries behind it still queued, it and they not restored
+            if rerr and k is not None:
+                if rest == f"stop_replay raised {st['exc']}": return "F-C53b"
+                if rest == f"stop_replay left flows {st['queued'][k + 1:]} in the queue" and st["left"] == st["queued"][k + 1:]:
+                    return "F-C53b"
+                mm = re.match(r"flow (\d+) not restored to its pre-replay state: its state is neither", rest)
+                if mm and int(mm.group(1)) in st["queued"][k:] and [int(mm.group(1)), "other"] in st["bad"]:
+                    return "F-C53b"
+            return None
+        # aftermath of a revert that hit a running replay: that replay never completes; if the loop awaited it, the loop is
+        # stuck.  With the exception it is F-C53b, without (recorded server address = replay target) F-C53c.
+        m = re.match(r"replay #(\d+) of flow (\d+) ended with neither response nor error$", failure)
+        if m:
+            o, x = int(m.group(1)), int(m.group(2))
+            for st in stops:
+                k = self._hit_open(st)
+                if k is None or [o, x] not in st["open_ords"]: continue
+                rerr = (st["exc"] or "").startswith("RuntimeError: Cannot change server.")
+                if rerr and st["queued"][k] == x: return "F-C53b"
+                if st["exc"] is None and x in st["queued"]: return "F-C53c"
+            return None
+        m = re.match(r"after the server answered or refused everything pending, flows \[.*\] are still queued and flow (-?\d+) is "
+                     r"still in flight: the playback loop is stuck$", failure)
+        if m:
+            x = int(m.group(1))
+            for st in stops:
+                k = self._hit_open(st)
+                if k is None or st["awaited"] != x or x not in st["open"]: continue
+                rerr = (st["exc"] or "").startswith("RuntimeError: Cannot change server.")
+                if rerr and st["queued"][k] == x: return "F-C53b"
+                if st["exc"] is None and x in st["queued"]: return "F-C53c"
+            return None
         return None
 
     # ---- model tie ----------------------------------------------------------------------------
     def model_lines(self, case):
         obs = self._last
-        if any(r[0] == "stop" and any(x in r[1] for x in r[4]) for r in obs["trace"]):
-            raise Skip("stop while a queued flow is in flight (F-C53b): outside the modelled domain")
+        if any(self._hit_open(st) is not None for st in self._stops(obs)):
+            raise Skip("stop reverted a flow whose replay runs over an open connection (F-C53b/c): outside the modelled domain")
         attrs = ",".join(ATTR.get(k, "001110") for k in case["flows"])
         fss = ",".join(FST.get(k, "0.0.0.0/-") for k in case["flows"])
         lines = [f"reset {attrs} {fss}"]
@@ -238,9 +289,11 @@ class Check(PropertyCheck):
         out = set()
         for r in obs["trace"]:
             if r[0] == "finish": out.add("finish-" + r[2])
-            if r[0] == "stop" and r[1]: out.add("stop-nonempty")
-            if r[0] == "stop" and r[2]: out.add("stop-not-restored")
-            if r[0] == "stop" and any(x in r[1] for x in r[4]): out.add("stop-with-queued-flow-in-flight")
+            if r[0] == "stop" and r[1]["queued"]: out.add("stop-nonempty")
+            if r[0] == "stop" and r[1]["bad"]: out.add("stop-not-restored")
+            if r[0] == "stop" and any(x in r[1]["queued"] for x in r[1]["inflight"]): out.add("stop-with-queued-flow-in-flight")
+            if r[0] == "stop" and self._hit_open(r[1]) is not None: out.add("stop-reverts-replay-with-open-connection")
+            if r[0] == "stop" and r[1]["exc"]: out.add("stop-raised")
             if r[0] == "start":
                 for c in r[3]:
                     if c != "none": out.add("refused-" + c)
